@@ -30,14 +30,14 @@ func init() {
 	register(&c04{base{
 		id:          "C04",
 		level:       lvlExploration,
-		rule:        "each case: a seeded PAR1 set (1..40 files of unequal sizes incl. empty files next to non-empty ones and files >16 KiB, Unicode incl. non-BMP names, 1..99 parity volumes) created with the real par1.Create, then (a) the untouched set must verify clean incl. the full parity check, and (b) damage patterns are applied: for sets with <=4 files and <=4 volumes EVERY subset of damaged data files (deleted or corrupted) x EVERY subset of deleted volumes (exhaustive mode), otherwise seeded subsets. Verify's counts must equal the truth by construction; Repair must restore every file whenever unusable data <= usable volumes unless the forced sub-matrix ((i)^(v-1) over GF(2^8)/0x11D, lowest available volumes x missing files) is singular by reference elimination, in which case an error is required. A key is (files, volumes, damaged set, lost volumes, damage kind). Further kinds: files of hundreds of KiB with unaligned lengths; 255 files + 1 volume. Base names and directories may contain '%'; names up to 200 characters; Create's postcondition (index and volumes 1..n under their PAR 1.0 names) is checked. One data name in seven is named like the set's own files (<index base>.part1.rar, .p01.txt, .par.bak ...).",
+		rule:        "each case: a seeded PAR1 set (1..40 files of unequal sizes incl. empty files next to non-empty ones and files >16 KiB, Unicode incl. non-BMP names, 1..99 parity volumes) created with the real par1.Create, then (a) the untouched set must verify clean incl. the full parity check, and (b) damage patterns are applied: for sets with <=4 files and <=4 volumes EVERY subset of damaged data files (deleted or corrupted) x EVERY subset of deleted volumes (exhaustive mode), otherwise seeded subsets. Verify's counts must equal the truth by construction; Repair must restore every file whenever unusable data <= usable volumes unless the forced sub-matrix ((i)^(v-1) over GF(2^8)/0x11D, lowest available volumes x missing files) is singular by reference elimination, in which case an error is required. A key is (files, volumes, damaged set, lost volumes, damage kind). Further kinds: files of hundreds of KiB with unaligned lengths; 255 files + 1 volume. Base names and directories may contain '%'; names up to 200 characters; Create's postcondition (index and volumes 1..n under their PAR 1.0 names) is checked. One data name in seven is named like the set's own files (<index base>.part1.rar, .p01.txt, .par.bak ...).. Case upper-ext (SET.PAR: refusal or a working round trip); a sixth of the generated files repeat another file's bytes.",
 		assumptions: append([]string{"klauspost/reedsolomon uses the lowest-numbered available parity rows (checked: singular outcomes must coincide with the reference)"}, commonAssumptions...),
 		opts:        core.WorkerOpts{CrashIsViolation: true, WallSeconds: 2400, Exhaustive: true, Extra: map[string]interface{}{"exhaustive_subspace": "sets of 1..4 files x 1..4 volumes: every subset of damaged data files x every subset of deleted volumes"}},
 	}})
 	register(&c10{base{
 		id:          "C10",
 		level:       lvlExploration,
-		rule:        "writer direction: every .par/.pNN written by the real par1.Create for a seeded set is parsed by an independent PAR 1.0 reader (header fields, control hash over bytes from 0x20, set hash over saved entries, offsets/sizes, UTF-16LE names incl. surrogate pairs, status bit 0) and its parity bytes are recomputed as sum i^(v-1)*file_i over GF(2^8)/0x11D; reader direction: sets produced by an independent writer (comment in the index volume, non-saved entries at every position among the saved ones, surrogate-pair names, generator id in the version field) are verified and repaired by gopar within capacity. A key is (direction, files, volumes, placement of non-saved entries / name class). Non-saved entries are kept absent or altered on disk through every judged state; sets with exactly 255 saved entries (with 0..2 more that are not saved) and one volume. Writer direction also through ONE par1.Encoder object with a repeated LoadFileData step.. Reader cases also judge intact data with a hole in the volume numbering under the full check, and all saved files lost at once.",
+		rule:        "writer direction: every .par/.pNN written by the real par1.Create for a seeded set is parsed by an independent PAR 1.0 reader (header fields, control hash over bytes from 0x20, set hash over saved entries, offsets/sizes, UTF-16LE names incl. surrogate pairs, status bit 0) and its parity bytes are recomputed as sum i^(v-1)*file_i over GF(2^8)/0x11D; reader direction: sets produced by an independent writer (comment in the index volume, non-saved entries at every position among the saved ones, surrogate-pair names, generator id in the version field) are verified and repaired by gopar within capacity. A key is (direction, files, volumes, placement of non-saved entries / name class). Non-saved entries are kept absent or altered on disk through every judged state; sets with exactly 255 saved entries (with 0..2 more that are not saved) and one volume. Writer direction also through ONE par1.Encoder object with a repeated LoadFileData step.. Reader cases also judge intact data with a hole in the volume numbering under the full check, and all saved files lost at once.. Reader cases also judge the state without any parity volume.",
 		assumptions: commonAssumptions,
 		opts:        core.WorkerOpts{CrashIsViolation: true, WallSeconds: 2400},
 	}})
